@@ -3,6 +3,8 @@ attributes derived from the constructor, and cached interpreter runs per (entry,
 
 from __future__ import annotations
 
+import ast
+
 import time
 
 from .interp import Interp
@@ -74,6 +76,30 @@ class Analysis:
 
     def api(self, name, mode="th"):
         return self.run(f"{CLS}.{name}", mode)
+
+    def impl(self, name, cls=CLS):
+        """the function that holds the logic of a public method: the method itself, or - when its whole body is
+        `return self._x(<its own parameters>)` - that helper (followed transitively)"""
+        f = self.p.func(f"{cls}.{name}")
+        seen = set()
+        while f.qual not in seen:
+            seen.add(f.qual)
+            body = [s for s in f.node.body if not (isinstance(s, ast.Expr) and isinstance(s.value, ast.Constant))]
+            if len(body) != 1 or not isinstance(body[0], (ast.Return, ast.Expr)) or not isinstance(body[0].value, ast.Call):
+                break
+            c = body[0].value
+            if not (isinstance(c.func, ast.Attribute) and isinstance(c.func.value, ast.Name) and c.func.value.id == "self"):
+                break
+            g = self.p.method(f.cls, c.func.attr)
+            params = [a.arg for a in f.node.args.args[1:]]
+            passed = [a.id for a in c.args if isinstance(a, ast.Name)] + [k.value.id for k in c.keywords if isinstance(k.value, ast.Name)]
+            if g is None or sorted(passed) != sorted(params):
+                break
+            f = g
+        return f
+
+    def impl_q(self, name, cls=CLS):
+        return self.impl(name, cls).qual
 
     def all_api_runs(self, modes=("th", "mp")):
         for m in modes:
